@@ -8,6 +8,7 @@
 EXTENDS Keyspace, Json
 
 CONSTANTS MaxHist,     \* depth bound of generated behaviours
+          WithJson,    \* generate JSET / JDEL / JGET
           TwoUpdates,  \* also generate SET/FSET with two field updates
           WithHooks    \* generate hook / channel commands
 
@@ -42,9 +43,19 @@ PdelhCmds == IF ~WithHooks THEN {} ELSE
 HooksCmds == IF ~WithHooks THEN {} ELSE
             {[op |-> "hooks", p |-> p, chan |-> ch] : p \in PatSet, ch \in BOOLEAN}
 
+JMembers == {"m:a", "m:b"}
+JVals == {"j:1", "j:x"}
+JsetCmds == IF ~WithJson THEN {} ELSE
+            {[op |-> "jset", k |-> k, id |-> i, m |-> m, v |-> v] : k \in Keys, i \in Ids, m \in JMembers, v \in JVals}
+JdelCmds == IF ~WithJson THEN {} ELSE
+            {[op |-> "jdel", k |-> k, id |-> i, m |-> m] : k \in Keys, i \in Ids, m \in JMembers}
+JgetCmds == IF ~WithJson THEN {} ELSE
+            {[op |-> "jget", k |-> k, id |-> i, m |-> m] : k \in Keys, i \in Ids, m \in JMembers \cup {"whole"}}
+
 Init == st = EmptyState /\ hist = <<>>
 
 Step(c) == LET r == Apply(st, c) IN
+           /\ Generable(st, c)
            /\ st' = r.st
            /\ hist' = Append(hist, [c |-> c, rr |-> r.rr, rj |-> r.rj, upd |-> r.upd])
 
@@ -66,6 +77,9 @@ Next == /\ Len(hist) < MaxHist
            \/ \E c \in KCmds("type") : Step(c)
            \/ \E c \in KeysCmds : Step(c)
            \/ \E c \in ScanCmds : Step(c)
+           \/ \E c \in JsetCmds : Step(c)
+           \/ \E c \in JdelCmds : Step(c)
+           \/ \E c \in JgetCmds : Step(c)
            \/ \E c \in HookCmds : Step(c)
            \/ \E c \in DelhCmds : Step(c)
            \/ \E c \in PdelhCmds : Step(c)
